@@ -199,6 +199,13 @@ def check(ctx):
 
     from rules import commits as _commits
     _commits.checkpoint_replaces(ctx)
+    # running the pipeline again means running the same step objects again: a step placed after the checkpoint that carries state
+    # from one run into the next (resources appended to a list the constructor made, a selector replaced by the matcher built from
+    # it, field names collected per run into a dict that is never emptied) returns something else the second time
+    from rules import independence as _ind
+    n34 = _ind.r34_run_idempotence(ctx)
+    n34 += _ind.r34_closure_state(ctx)
+    run.floor('R34', n34, 30, 'step classes and step factories')
 
     run.rule('R25', 'FRAMING: the writer emits one single-line JSON document plus a newline per object and the reader reads line by '
                     'line, ends a resource at the first blank line and produces one reader per resource of the stored descriptor')
